@@ -698,7 +698,10 @@ func copyTree(src, dst string) error {
 		}
 		rel, _ := filepath.Rel(src, p)
 		if rel == ".git" || rel == "vrt" {
-			return filepath.SkipDir
+			if d.IsDir() {
+				return filepath.SkipDir
+			}
+			return nil // a worktree's .git is a file: SkipDir here would skip the rest of the tree
 		}
 		out := filepath.Join(dst, rel)
 		if d.IsDir() {
